@@ -13,6 +13,9 @@
       [Query] or [Mutation] (root fields serial), [fuel] bounds the idle rounds and [jfuel] the
       depth of the JSON projection; the outcome is [Done resp], [Stuck] (an idle round that
       fulfils nothing: the real executor spins for ever) or [OutOfFuel];
+      a promise whose tag is at least [pre_base] (2^32) is *prefilled*: its resolver sends the
+      result before it returns the channel, so it needs no idle round — every theorem below
+      quantifies over such promises too (they are just plans);
     - [fair sigma]: every idle round fulfils at least one outstanding promise;
     - [run_sync root] (Fut/ExecSync.v) is the reference: GraphQL's ExecuteSelectionSet /
       CompleteValue with every resolver answering directly; no futures, no heap;
